@@ -3,8 +3,11 @@ package props
 import (
 	"fmt"
 	"math/rand"
+	"net/url"
 	"strings"
 	"time"
+
+	"github.com/zitadel/saml/pkg/provider"
 
 	"verif/harness/core"
 	"verif/harness/env"
@@ -227,6 +230,104 @@ func c07Query(r *core.Run, idx int, rng *rand.Rand) {
 	}
 }
 
+// c07Uptime: one process / provider serves many ordinary but sizeable redirect-binding messages
+// (indented serialisations, > 10 MiB inflated in total): every one must still be accepted.
+func c07Uptime(r *core.Run, idx int, rng *rand.Rand) {
+	const wl = "long_uptime"
+	e := env.Static(env.Opts{})
+	sp := stdSP(0)
+	sp.AuthnRequestsSigned = ""
+	mustRegister(e.W, sp, "appA")
+	total := 0
+	for k := 0; k < 56; k++ {
+		pad := strings.Repeat("\n        ", 100000+rng.Intn(30000)) // legal white space between elements, 0.9-1.2 MiB
+		var call *env.Call
+		kind := "authn"
+		if k%4 == 3 {
+			kind = "logout"
+			l := conformantLogout(rng, sp)
+			x := l.XML(rng)
+			i := strings.LastIndex(x, "</")
+			x = x[:i] + pad + x[i:]
+			total += len(x)
+			s := ssoSend{Path: env.PathSLO, Binding: "redirect", XML: x}
+			call, _ = s.do(e)
+			if call.Panic == "" && call.D.Success() {
+				r.Count("uptime_accepted", 1)
+				continue
+			}
+		} else {
+			a := validAuthn(rng, sp)
+			x := a.XML(rng)
+			i := strings.LastIndex(x, "</")
+			x = x[:i] + pad + x[i:]
+			total += len(x)
+			s := ssoSend{Binding: "redirect", XML: x}
+			call, _ = s.do(e)
+			if call.Panic == "" && call.Accepted() {
+				r.Count("uptime_accepted", 1)
+				continue
+			}
+		}
+		reason := fmt.Sprintf("status %d", call.D.Status)
+		if call.D.Msg != nil {
+			reason = call.D.Msg.StatusCode + ": " + call.D.Msg.StatusMessage
+		}
+		r.Violate(core.Violation{Clause: "conformant_request_rejected_after_long_uptime", Class: "uptime|" + kind, Reason: fmt.Sprintf("request %d (after %d KiB of inflated messages served by this process) was rejected: %s", k, total>>10, reason), Workload: wl, Index: idx, Observed: call.Describe()})
+		return
+	}
+	r.EvalBulk(56, 1)
+	r.Max("uptime_inflated_KiB_served_by_one_provider", int64(total>>10))
+}
+
+// c07EndpointQuery: the single-sign-on location the IdP advertises has a query of its own.
+func c07EndpointQuery(r *core.Run, idx int, rng *rand.Rand) {
+	const wl = "advertised_location_with_query"
+	q := []string{"org=acme", "tenant=t1&lang=de", "x"}[rng.Intn(3)]
+	ssoURL := "https://idp.example/saml/SSO?" + q
+	sloURL := "https://idp.example/saml/SLO?" + q
+	ssoEP, sloEP := provider.NewEndpointWithURL("/SSO", ssoURL), provider.NewEndpointWithURL("/SLO", sloURL)
+	e := env.Static(env.Opts{Endpoints: &provider.EndpointConfig{SingleSignOn: &ssoEP, SingleLogOut: &sloEP}})
+	sp := stdSP(rng.Intn(4))
+	sp.AuthnRequestsSigned = ""
+	mustRegister(e.W, sp, "appA")
+	binding := []string{"redirect", "post"}[rng.Intn(2)]
+	kind := []string{"authn", "logout"}[rng.Intn(2)]
+	var call *env.Call
+	ok := false
+	if kind == "authn" {
+		a := validAuthn(rng, sp)
+		a.Destination = ssoURL
+		x := a.XML(rng)
+		if binding == "post" {
+			call = e.Do(env.Req{Method: "POST", Path: env.PathSSO, Query: q, Body: spsim.FormBody("SAMLRequest", spsim.B64([]byte(x)), "RelayState", "rs")})
+		} else {
+			call = e.Do(env.Req{Path: env.PathSSO, Query: q + "&SAMLRequest=" + url.QueryEscape(spsim.DeflateB64(x)) + "&RelayState=rs"})
+		}
+		ok = call.Accepted()
+	} else {
+		l := conformantLogout(rng, sp)
+		l.Destination = sloURL
+		x := l.XML(rng)
+		if binding == "post" {
+			call = e.Do(env.Req{Method: "POST", Path: env.PathSLO, Query: q, Body: spsim.FormBody("SAMLRequest", spsim.B64([]byte(x)))})
+		} else {
+			call = e.Do(env.Req{Path: env.PathSLO, Query: q + "&SAMLRequest=" + url.QueryEscape(spsim.DeflateB64(x))})
+		}
+		ok = call.D.Success()
+	}
+	class := fmt.Sprintf("endpoint_with_query|%s|%s", kind, binding)
+	r.Eval(class + "|" + q)
+	r.Count("endpoint_with_query_requests", 1)
+	if call.Panic != "" || !ok {
+		reason := fmt.Sprintf("status %d %s", call.D.Status, call.Panic)
+		if call.D.Msg != nil {
+			reason = call.D.Msg.StatusCode + ": " + call.D.Msg.StatusMessage
+		}
+		r.Violate(core.Violation{Clause: "conformant_request_to_advertised_location_rejected", Class: class, Reason: "a conformant " + kind + " sent by " + binding + " to the advertised location " + ssoURL + " was not accepted: " + reason, Workload: wl, Index: idx, Observed: call.Describe()})
+	}
+}
+
 var _ = sim.FaultError
 
 func init() {
@@ -235,20 +336,25 @@ func init() {
 		TimeoutQuick: 5 * time.Minute, TimeoutThorough: 30 * time.Minute,
 		Build: func(c *Ctx) []core.Workload {
 			r := c.Run
-			r.Rule = "requests are drawn from a generator of conformant messages (serialisation style x binding x signing x percent-encoding style x KeyInfo layout x SP/IdP signing requirements), each against a fresh provider; the monitor requires acceptance (AuthnRequest: persisted + 303; LogoutRequest / AttributeQuery: status Success). A further workload drives ONE provider with a host-derived issuer through sequences of conformant requests under several hosts (each addressed to the location advertised for its own host). Distinct = (class labels, serialisation style, configuration); all are non-trivial."
+			r.Rule = "requests are drawn from a generator of conformant messages (serialisation style x binding x signing x percent-encoding style x KeyInfo layout x SP/IdP signing requirements), each against a fresh provider; the monitor requires acceptance (AuthnRequest: persisted + 303; LogoutRequest / AttributeQuery: status Success). A further workload drives ONE provider with a host-derived issuer through sequences of conformant requests under several hosts (each addressed to the location advertised for its own host); one where the advertised single-sign-on / logout location has a query of its own; and one where a single process serves more than 100 MiB of ordinary, heavily indented redirect-binding messages. Distinct = (class labels, serialisation style, configuration); all are non-trivial."
 			r.Assume("RelayState is only sent when non-empty (an empty RelayState parameter is not treated as conformant)")
 			r.Assume("timestamps use the UTC 'Z' form with 0-9 fractional digits, validity windows have >= 60 s margin")
 			r.Require("authn_accepted", 100)
 			r.Require("logout_success", 50)
 			r.Require("query_success", 50)
 			r.Require("multi_host_accepted", 500)
+			r.Require("endpoint_with_query_requests", 100)
+			r.Require("uptime_accepted", 100)
 			return []core.Workload{
+				// first, while nothing else has run in this process: one provider serving > 100 MiB of ordinary messages one after the other
+				{Name: "long_uptime", N: c.Pick(2, 8), Workers: 1, Fn: c07Uptime},
 				{Name: "conformant_authn", N: c.Pick(700, 8000), Fn: c07SSO},
 				{Name: "conformant_logout", N: c.Pick(300, 3000), Fn: c07Logout},
 				{Name: "conformant_attribute_query", N: c.Pick(300, 3000), Fn: c07Query},
 				{Name: "multi_host_sequences", N: c.Pick(150, 1500), Fn: func(r *core.Run, idx int, rng *rand.Rand) {
 					multiHostSequence(r, "multi_host_sequences", idx, rng, false)
 				}},
+				{Name: "advertised_location_with_query", N: c.Pick(120, 1200), Fn: c07EndpointQuery},
 			}
 		},
 	})
